@@ -3,7 +3,7 @@
 # 1. fresh scratch worktree of /repo HEAD; demo passes; 2. apply diff; demo fails; 3. suite unchanged; 4. ./check PROP quick on mutated tree
 set -u
 PROP=$1; SRC=$2; N=$3; TIER=${4:-quick}
-ID="${PROP}-$(basename $SRC)-m$N"
+ID="${PROP}-$(basename $SRC)${SUFFIX:-}-m$N"
 W=$(mktemp -d /tmp/sv_XXXXXX); rmdir $W
 git -C /repo worktree add -q --detach $W HEAD || exit 3
 cleanup() { git -C /repo worktree remove --force $W 2>/dev/null; rm -rf $W /tmp/sv_ev_$$ /tmp/sv_found_$$; }
